@@ -150,7 +150,7 @@ def run_case(ck, cfg, mode, chooser=None, sched_seed=0, deep=True, stats=None):
             ops.append(op)
         # sequential preparation (not part of the explored phase)
         for op in ops:
-            if op["kind"] == "upload-stale":
+            if op["kind"] == "upload-stale" and cfg.get("scenario") != "mid-publish-survey":
                 st, sm = g.wait(op["node"].get_servermap(MODE_WRITE))
                 if st != "ok":
                     ck.observe("setup-survey-failed")
@@ -184,6 +184,10 @@ def run_case(ck, cfg, mode, chooser=None, sched_seed=0, deep=True, stats=None):
             if kind == "modify":
                 def modifier(old, servermap, first_time):
                     op["modcalls"].append((first_time, len(old)))
+                    # the survey the published data will be derived from: what this client has been shown up to now
+                    op.setdefault("derive", []).append((mon.tick, mon.snapshot(op["client"]), old))
+                    if op.get("on_modifier"):
+                        op["on_modifier"](first_time)
                     if op["tag"] in old.split(b"|"):
                         return None
                     return old + b"|" + op["tag"]
@@ -196,9 +200,53 @@ def run_case(ck, cfg, mode, chooser=None, sched_seed=0, deep=True, stats=None):
         if chooser is not None and hasattr(chooser, "active"):
             chooser.active = True
         try:
-            for op in ops:
-                start(op).addBoth(op["box"].append)
-            st = g.sched.run(until=lambda: all(op["box"] for op in ops), max_steps=300000, horizon=6 * 3600.0)
+            scenario = cfg.get("scenario")
+            if scenario == "retry-window":
+                # A.modify() collides with B1 (so it is on its retry path); while A is between "contents read and
+                # modified" and "publish", B2 completes a whole write.  A's requests are held back meanwhile.
+                a, nth = ops[0], [0]
+                started = [a]
+
+                def on_modifier(first_time):
+                    nth[0] += 1
+                    if nth[0] < len(ops):
+                        nxt = ops[nth[0]]
+                        key = M.hold(g, a["client"])
+                        started.append(nxt)
+                        d = start(nxt)
+                        d.addBoth(nxt["box"].append)
+                        d.addBoth(lambda _: M.release(g, key))
+                a["on_modifier"] = on_modifier
+                start(a).addBoth(a["box"].append)
+                st = g.sched.run(until=lambda: all(op["box"] for op in started), max_steps=300000, horizon=6 * 3600.0)
+                if len(started) == len(ops):
+                    ck.hit("writer-completes-inside-retry-window-of-modify")
+                ops = started
+            elif scenario == "mid-publish-survey":
+                # A surveys the file while B is part-way through its publish (B's write for share S still on its
+                # way), B then finishes, A publishes from that survey
+                b, a = ops[0], ops[1]
+                holder = [vs_.name for (vs_, sh_, _) in g.find_shares(si) if sh_ == cfg["S"] % n][0]
+                key = M.hold(g, b["client"], holder, M.WRITE)
+                start(b).addBoth(b["box"].append)
+                want = len([1 for (vs_, sh_, _) in g.find_shares(si) if vs_.name != holder])
+                g.sched.run(until=lambda: M.held(g, key) >= 1 and sum(
+                    1 for w in mon.writes if w["client"] == b["client"] and w["rec"]["state"] == "answered") >= want,
+                    max_steps=100000, horizon=600.0)
+                st_, sm = g.wait(a["node"].get_servermap(MODE_WRITE))
+                M.release(g, key)
+                g.sched.run(until=lambda: bool(b["box"]), max_steps=100000, horizon=600.0)
+                if st_ != "ok" or not b["box"]:
+                    ck.observe("setup-survey-failed")
+                    return out
+                a["smap"] = sm
+                ck.hit("survey-taken-in-the-middle-of-another-publish")
+                start(a).addBoth(a["box"].append)
+                st = g.sched.run(until=lambda: bool(a["box"]), max_steps=300000, horizon=6 * 3600.0)
+            else:
+                for op in ops:
+                    start(op).addBoth(op["box"].append)
+                st = g.sched.run(until=lambda: all(op["box"] for op in ops), max_steps=300000, horizon=6 * 3600.0)
         except M.Prune as e:
             out["pruned"] = str(e)
             out["alarms"] = list(mon.alarms)
@@ -246,6 +294,26 @@ def evaluate(ck, cfg, g, mon, ops, outcomes, initial, shnums_before, c0, monbox,
     if any(len(v) >= 2 for v in by_client_slots.values()):
         ck.hit("slot-rewritten-by-second-publisher-after-resurvey")
 
+    # ---- a modify() publishes data derived from one survey: the slots it overwrites must still hold what THAT survey
+    #      showed (a re-survey between reading and publishing would hide a writer that completed in between)
+    if not cfg.get("vanish"):
+        for op in ops:
+            for w in [w for w in applied if w["client"] == op["client"]] if op.get("derive") else ():
+                before = [dv for dv in op["derive"] if dv[0] < w["rec"].get("tick_send", 0)]
+                if not before:
+                    continue
+                ck.mon("applied-write-matches-survey-the-data-derives-from")
+                kn = mon.known_in(before[-1][1], w["server"], w["shnum"])
+                kn_cs = kn[1] if kn[0] == "cs" else None
+                if w["pre"] is not None and w["pre"] != kn_cs:
+                    ck.violation("write-applied-over-version-newer-than-the-data-it-derives-from",
+                                 "%s modify(): server %s applied its write to sh%d over %s (written by %s), but when the "
+                                 "modifier was given the contents this client had last been shown %s there -- the slot "
+                                 "changed after the survey the published data derives from and nobody noticed"
+                                 % (op["client"], w["server"], w["shnum"], M.csid(w["pre"]), mon.owner.get(w["pre"]),
+                                    M.csid(kn_cs) or kn[0]),
+                                 dict(cfg=desc, outcomes=outcomes, event=mon.describe_write(w), wire=mon.log_tail(50),
+                                      schedule=out.get("witness")))
     versions_written = set(w["new"] for w in writes if w["new"] is not None)
     any_pending = False
     for op, oc in zip(ops, outcomes):
@@ -392,9 +460,22 @@ def evaluate(ck, cfg, g, mon, ops, outcomes, initial, shnums_before, c0, monbox,
                              witness)
             else:
                 ok_mods = [op for op, oc in zip(ops, outcomes) if oc == "ok" and op["kind"] == "modify"]
+                # with full visibility and either two writers or writers that follow one another, a modify() that
+                # reported success cannot disappear: whoever overwrites it surveyed it and built on it
+                strict = (all(op["kind"] == "modify" for op in ops) and not cfg.get("hide") and not cfg.get("drop")
+                          and not cfg.get("vanish") and not cfg.get("hide_dropped_holder")
+                          and (len(ops) == 2 or cfg.get("scenario") == "retry-window"))
+                if strict:
+                    ck.mon("successful-modify-survives")
                 for op in ok_mods:
                     if op["tag"] not in data.split(b"|"):
-                        ck.observe("successful-modify-missing-from-best-version")
+                        if strict:
+                            ck.violation("successful-modify-silently-lost",
+                                         "%s modify() reported success, every operation reported success or an "
+                                         "UncoordinatedWriteError it recovered from, yet the file reads %r: the "
+                                         "update is gone" % (op["client"], data[:120]), witness)
+                        else:
+                            ck.observe("successful-modify-missing-from-best-version")
     elif bound:
         ck.violation("no-version-recoverable-by-client-after-concurrent-writes",
                      "fresh client finds no recoverable version although the bound holds", witness)
@@ -525,6 +606,22 @@ def random_cfg(rng, tier):
     return cfg
 
 
+def scenario_cfg(rng, which=None, fmt=None, S=None):
+    """Directed histories (the interleaving that matters is produced by holding one client's requests back)."""
+    which = which or rng.choice(["retry-window", "mid-publish-survey"])
+    fmt = fmt or rng.choice(["SDMF", "MDMF"])
+    k, n, ns = rng.choice([(1, 3, 3), (1, 2, 2), (2, 4, 4), (2, 5, 3), (1, 4, 2), (3, 6, 6)])
+    cfg = dict(fmt=fmt, k=k, n=n, nservers=ns, initial=b"base", keyidx=rng.randrange(8), scenario=which,
+               profile=rng.choice(["free", "per-server-fifo", "fifo"]))
+    if which == "retry-window":
+        cfg["kinds"] = ("modify", "modify", "modify")
+    else:
+        cfg["kinds"] = ("overwrite", "upload-stale")
+        cfg["S"] = rng.randrange(n) if S is None else S
+    cfg["key"] = "scn/%s" % (sorted((kk, repr(v)) for kk, v in cfg.items()),)
+    return cfg
+
+
 # ------------------------------------------------------------------ driver
 
 def report_alarms(ck, cfg, alarms, witness):
@@ -644,7 +741,13 @@ def _run(ck):
         if not ck.mine(i):
             continue
         rng = ck.rng("rnd", i)
-        cfg = random_cfg(rng, ck.tier)
+        if i <= 10 and ck.shard == 0:
+            # the directed histories always run, whatever the load: both kinds, both formats, several shares
+            cfg = scenario_cfg(rng, ("retry-window", "mid-publish-survey")[i % 2], ("SDMF", "MDMF")[(i // 2) % 2], S=i % 3)
+        elif rng.random() < .08:
+            cfg = scenario_cfg(rng)
+        else:
+            cfg = random_cfg(rng, ck.tier)
         seed = rng.getrandbits(32)
         with ck.watchdog(180, "random case %d" % i):
             res = run_case(ck, cfg, "random", chooser=None, sched_seed=seed, deep=True)
@@ -656,11 +759,13 @@ def _run(ck):
                         sample=dict(cfg=describe_cfg(cfg), outcomes=res["outcomes"], bound_met=res.get("bound")))
     ck.extra["random_distinct_schedules"] = len(rnd_schedules)
     ck.extra["eventual_exceptions_last_case"] = len(env.evq.exceptions)
-    ck.require_monitor("applied-write-matches-survey", "success-implies-clean-answers", "recoverable-after-race",
+    ck.require_monitor("applied-write-matches-survey-the-data-derives-from", "successful-modify-survives",
+                       "applied-write-matches-survey", "success-implies-clean-answers", "recoverable-after-race",
                        "mapupdate-agrees-with-disk-scan", "lone-writer-succeeds")
     ck.require_reach("write-refused-by-test-vector", "uncoordinated-write-error-reported", "writer-succeeded",
                      "writes-of-two-publishers-applied", "bound-met", "bound-exceeded",
-                     "write-meets-unknown-version-on-server", "unknown-version-on-server-while-all-own-writes-applied")
+                     "write-meets-unknown-version-on-server", "unknown-version-on-server-while-all-own-writes-applied",
+                     "writer-completes-inside-retry-window-of-modify", "survey-taken-in-the-middle-of-another-publish")
     ck.assumptions.append("client-local steps (eventual queue turns, thread completions, due timers) run greedily "
                           "between message deliveries during DFS; random mode interleaves them freely")
     ck.assumptions.append("exhaustive=true refers to the DFS configurations listed in dfs_exhausted_sample/"
